@@ -1,5 +1,6 @@
 import Driver.Proto
 import Driver.Select
+import Driver.Multi
 /-!
 # Model driver: one JSON request per line on stdin → one canonical JSON answer per line on stdout.
 -/
@@ -67,6 +68,7 @@ def handle (line : String) : String :=
       let op ← getStr (← field j "op")
       if op.startsWith "var." || op.startsWith "decl." then handleVars op j
       else if op.startsWith "task." then handleTask op j
+      else if op.startsWith "multi." then handleMulti op j
       else if op.startsWith "sel." then handleSel op j
       else if op.startsWith "loop." then handleLoop op j
       else err s!"unknown op {op}"
